@@ -268,9 +268,6 @@ func (x *Exec) mapParts(st *State, m Val) (d, v string, vs string, vt types.Type
 
 // nilMapFacts: a nil map has no entries.
 func (x *Exec) nilMapFacts(st *State, m Val, d, v, vs string, key string) {
-	if m.T == "0" {
-		return
-	}
 	f := []string{}
 	if key != "" {
 		f = append(f, not(app("select", d, key)))
